@@ -32,6 +32,7 @@ PO = z3.Function('PO', z3.IntSort(), SeqI)
 RES = z3.Function('RES', z3.IntSort(), z3.IntSort())
 POL = z3.Function('POL', z3.ArraySort(z3.IntSort(), z3.IntSort()), z3.IntSort(), SeqI)
 EMPTY = z3.Empty(SeqI)
+TRUTHY = z3.Function('truthy', z3.IntSort(), z3.BoolSort())
 
 
 class SeqVal(object):
@@ -75,7 +76,10 @@ def abs_child(it, term, kind='node'):
     def accept(it2, self, args, kwargs):
         emit(it2, PO(self.term))
         return AbsVal(RES(self.term), 'result')
-    return AbsVal(term, kind, methods={'accept_node_visitor': accept})
+    # an abstract child may be any visitable object, e.g. an (empty, hence falsy) LatexNodeList: its
+    # truth value is unknown
+    return AbsVal(term, kind, methods={'accept_node_visitor': accept},
+                  attrs={'truth': lambda it2, self: TRUTHY(self.term)})
 
 
 NODE_CODEC = Codec(
